@@ -164,6 +164,39 @@ def make_pixels(C, spatial, dtype, a, b):
     return np.asarray(v).reshape((C,) + tuple(spatial)).astype(dtype)
 
 
+def poke_special(px, dtype, k):
+    """values that only survive a crop if it really is a block copy (the property says "bit for bit"): NaN, the
+    infinities, -0.0, the extreme finite values and a subnormal for the float dtypes; integers beyond 2**53 (not
+    representable in float64) for the 64-bit integer dtypes, the dtype's extremes for the others"""
+    np = np_()
+    dt = np.dtype(dtype)
+    if dt.kind == "f":
+        fi = np.finfo(dt)
+        vals = [np.nan, np.inf, -np.inf, -0.0, fi.max, fi.min, fi.smallest_subnormal, -fi.smallest_subnormal]
+    elif dt.kind in "iu" and dt.itemsize == 8:
+        ii = np.iinfo(dt)
+        vals = [2 ** 53 + 1, 2 ** 62 + 3, ii.max, ii.max - 1] + ([-(2 ** 53 + 1), ii.min, ii.min + 1] if dt.kind == "i"
+                                                                 else [2 ** 63 + 1])
+    elif dt.kind in "iu":
+        ii = np.iinfo(dt)
+        vals = [ii.max, ii.min, ii.max - 1]
+    else:
+        return px
+    flat = px.reshape(-1)
+    n = flat.size
+    for j, v in enumerate(vals):
+        flat[(k * 7 + j * (n // len(vals) + 1) + j) % n] = v
+    # and one inside every 2x.. corner region so that small crops see some of them
+    flat[(k + 1) % n] = vals[k % len(vals)]
+    return px
+
+
+def same_bits(a, b):
+    """bit-for-bit equality of two arrays (NaN payloads and the sign of zero included)"""
+    np = np_()
+    return a.shape == b.shape and a.dtype == b.dtype and np.ascontiguousarray(a).tobytes() == np.ascontiguousarray(b).tobytes()
+
+
 def make_mask(spatial, a):
     np = np_()
     size = int(np.prod(spatial))
@@ -194,9 +227,13 @@ def build_image(case):
         img = BooleanImage(px[0])
     elif cls == "MaskedImage":
         px = make_pixels(case["C"], spatial, case["dtype"], case["pa"], case["pb"])
+        if case.get("special") is not None:
+            px = poke_special(px, case["dtype"], case["special"])
         img = MaskedImage(px, mask=make_mask(spatial, case.get("ma", 3)))
     else:
         px = make_pixels(case["C"], spatial, case["dtype"], case["pa"], case["pb"])
+        if case.get("special") is not None:
+            px = poke_special(px, case["dtype"], case["special"])
         img = Image(px)
     if case.get("lms"):
         img.landmarks["g"] = PointCloud(np.array(case["lms"], dtype=float) + np.array(lo, dtype=float))
@@ -388,7 +425,7 @@ def run_crop_case(ctx, case, lines, cid):
             blo, bhi = (lo, hi) if inside else (clo, chi)
             exp = src[(slice(None),) + tuple(slice(a, b) for a, b in zip(blo, bhi))]
             ok = (out.pixels.shape == exp.shape and out.pixels.dtype == src.dtype
-                  and np.array_equal(out.pixels, exp))
+                  and same_bits(out.pixels, exp))
             if not ok:
                 failed = True
                 pat = ("shape" if out.pixels.shape != exp.shape else
@@ -414,7 +451,7 @@ def run_crop_case(ctx, case, lines, cid):
                 if out.mask.pixels.shape != mexp.shape or not np.array_equal(out.mask.pixels, mexp):
                     failed = True
                     ctx.fail(site + ".mask", "mask-block-differs", "mask of the cropped image is not the mask block", rp)
-            if not np.array_equal(img.pixels, src):
+            if not same_bits(img.pixels, src):
                 failed = True
                 ctx.fail(site + ".source", "source-mutated", "crop modified the source image", rp)
             # observation (decision recorded in INFO['partial']): pixels of the points on the whole-valued maximum
@@ -467,14 +504,17 @@ def run_crop_case(ctx, case, lines, cid):
                                                           "1" if case["minimum"] else "0", lm_s)
             return "tmask r %s 0 %s %s %d %s" % (c, arr_in(arr), arr_in(img.mask.pixels), int(case["boundary"]), lm_s)
 
-        lines.append("%s.px %s" % (cid, model_line(src, True)))
-        if err is not None:
+        if case.get("special") is not None:
+            ctx.count("crop-special-values:" + case["dtype"])
+        elif err is not None:
+            lines.append("%s.px %s" % (cid, model_line(src, True)))
             obs[cid + ".px"] = "err " + ek
         else:
+            lines.append("%s.px %s" % (cid, model_line(src, True)))
             got_l = out.landmarks["g"].points if (case.get("lms") and out.has_landmarks) else np.zeros((0,))
             obs[cid + ".px"] = norm_reply("ok " + arr_out(out.pixels) + " L " + " ".join(
                 common.fq(x) for x in got_l.ravel().tolist()))
-        if how in ("pointcloud_prop", "landmarks_prop"):
+        if how in ("pointcloud_prop", "landmarks_prop") and (cid + ".px") in obs:
             obs[cid + ".px"] = "B %s %s" % (common.fq(float(proportion_boundary(case))), obs[cid + ".px"])
         if case["cls"] == "MaskedImage":
             lines.append("%s.mk %s" % (cid, model_line(img.mask.pixels, False)))
@@ -577,6 +617,10 @@ def gen_crop_case(rng):
         case["omit"] = True      # constrain_to_boundary left to its default (False)
     if rng.random() < 0.5:
         case["lms"] = [[rng.randint(0, 4 * (n - 1)) / 4.0 for n in spatial] for _ in range(rng.randint(1, 3))]
+    if case["cls"] != "BooleanImage" and case["dtype"] != "bool" and rng.random() < 0.25:
+        # float images holding NaN / inf / -0.0 / extreme values, 64-bit integers beyond 2**53: "bit for bit"
+        case["special"] = rng.randint(0, 40)
+        return case
     return add_previous_life(rng, case)
 
 
